@@ -10,7 +10,7 @@ TRUSTED_BASE = [
 
 PROPS = {
     "C18": {
-        "suites": ["rule_id", "find_root"],
+        "suites": ["rule_id", "find_root", "generate", "tree_frame"],
         "trusted": ["cobra/pflag flag parsing and filepath.Abs are not modelled; os.Stat is the predicate `has`"],
         "level_text": "Kernel-checked theorems (all argument strings, all start directories and file-system predicates) about Gallina transcriptions of parseRuleId and findRootDirectory: acceptance iff the grammar NNNNNN[-chainK][.ra] with K below 2^bits (bits read from the source), resolution of id/file/offset, no wrap-around, nearest-ancestor root; tied to the code by pins on the regenerated pattern/literals and by differential runs of the extracted model against the real functions.",
         "level_note": "Trusted: Coq kernel, translator, extraction, harness generators. Modelled, not verified: the Go functions themselves (hand transcription, checked by correspondence); cobra flag handling, filepath.Abs and os.Stat are outside the model; generate-from-stdin equality is exercised through the CLI only.",
@@ -25,7 +25,7 @@ PROPS["C13"] = {
     "assumptions": ["lines handled by the regexps contain no newline (guaranteed by the scanner)", "no Unicode white space beyond ASCII at line ends"],
 }
 PROPS["C14"] = {
-    "suites": ["copyright"],
+    "suites": ["copyright", "tree_frame"],
     "level_text": "Kernel-checked theorems for all lines/versions/years about a Gallina transcription of updateRules (five ReplaceAllString passes): text without markers is copied, the header and copyright markers show exactly V and Y and are fixed points; idempotence for all accepted versions is refuted by a model witness replayed on the code (known finding C14-version-forms). Tied by pins on the five patterns and by differential runs against updateRules with histories of invocations.",
     "level_note": "Trusted: Coq kernel, translator, extraction, harness. Modelled: updateRules; semver.NewVersion is an oracle (the real validateSemver decides which versions the oracle runs use); template expansion assumes no '$' in version/year; '.' in the patterns is modelled on bytes (generators put no multi-byte rune at those positions); time.Now default year not modelled.",
     "assumptions": ["version strings contain no '$'", "four-digit years"],
@@ -83,7 +83,7 @@ PROPS["C02"] = {
     "assumptions": ["as C01"],
 }
 PROPS["C03"] = {
-    "suites": ["expand_defs", "replace_suffixes", "fuzz_generate", "generate", "generate_defs"],
+    "suites": ["expand_defs", "replace_suffixes", "fuzz_generate", "generate", "generate_defs", "c06_except"],
     "trusted": GEN_TRUST,
     "level_text": "Go map iteration is an explicit order argument of the model. Kernel-checked theorems for all orders: every line is claimed by at most one of the seven directive patterns (proved from the matchers; holds since IncludeRegex is anchored, a genuine defect repaired by fix: 597d59c), hence line classification is the same for every iteration order; WHOLE-COMMAND THEOREM: for all main, include and exclude files the result of generate does not depend on the iteration order of the pattern map nor of the inclusion-line map (any permutations); suffix replacement is order-independent for non-interfering pair lists; the include-except sort undoes any iteration order of the line map; the flag prefix is sorted; a run does not read process state left by an earlier run. The part the code violates (chained replacement pairs) is refuted by a model witness that replays on the binary (known finding); cyclic definitions are a further recorded finding. Tied by pins and by differential runs in which the Go result must lie in the model's result set over all orders; every generated program is additionally executed three times in fresh processes (stdin and file path) and all outputs must be equal.",
     "level_note": "Trusted as C01. Schedules are proved for the modelled map loops only; other runtime sources of nondeterminism are sampled by repeated fresh executions. Order independence of definition expansion is decided per generated case (model result set over all 576 order pairs), not yet by a theorem.",
@@ -143,7 +143,7 @@ PROPS["C15"] = {
     "assumptions": ["regular files only"],
 }
 PROPS["C16"] = {
-    "suites": ["tree_faults", "fuzz_generate"],
+    "suites": ["tree_faults", "fuzz_generate", "tree_frame"],
     "trusted": GEN_TRUST + TREE_TRUST,
     "level_text": "Kernel-checked theorems about Model/Cli.v: a failing single-rule update and a failing single-file format leave the tree identical; compare produces a verdict only when exactly one rules file matches (the zero-exit on a missing/ambiguous rules file was a genuine defect, repaired in /repo by fix: e2f7323); 'every target file byte-identical after a failure' is refuted for update --all by a model witness that replays on the binary (known finding). The error class of every modelled failure path of generate (join error, unknown processor, bad cmdline type, stack errors, unknown/missing stored name, unsupported flag, uneven pair list, flags in include, missing file) is part of the pipeline model and is compared with the binary on malformed inputs. Tied by pins and differential runs; the oracle injects one fault of every listed class at every position into generated trees and observes exit status, stdout and the whole-tree snapshot.",
     "level_note": "Trusted as C01/C15. cobra's own argument errors and zerolog's Fatal/Panic exit mapping are taken from the libraries and validated by the runs.",
